@@ -20,7 +20,6 @@ import enum
 import gc
 import hashlib
 import json
-import math
 import os
 import re
 import time
@@ -639,7 +638,6 @@ def _adapter_job(ei):
     se = _A["se"]
     e = _A["entries"][ei]
     rows = _A["rows"].get(e.ai, [])
-    rec = _A["recs"][e.ai - 1]
     w, signed = e.int_type
     ser = e.ser
     bad, n = [], 0
@@ -665,7 +663,6 @@ def _adapter_job(ei):
         near = {0, fam[0], fam[-1]} | {int(m) for m in e.cls.__members__.values()}
         fam = [x for i, x in enumerate(fam) if i % 16 == 0 or any(abs(x - c) <= 40 for c in near)]
     events = []
-    names_ok = set(e.cls.__members__)
     for mode in ("pod", "obj"):
         samples = []
         for x in fam:
@@ -909,11 +906,10 @@ def _block_replay(edge_ids):
     return n, out
 
 
-def _block_machine(chk: Check, entries, rows_by_ai, depth_note):
+def _block_machine(chk: Check, entries, rows_by_ai):
     se, dt, Block, TD, MsgType = _mods()
     e = next((x for x in entries if x.key == ("AgentUpdate", "AgentData", "State")), None) or \
         next(x for x in entries if x.kind == "flag" and x.int_type == (8, False))
-    raws = [0, 1, 4, 16, 20, 21]
     members = sorted(int(m) for m in e.cls.__members__.values())
     raws = sorted({0, 1, members[0], members[-1], members[0] | members[-1], members[0] | members[-1] | 1})
     consts = "CONSTANTS Raws = {%s}\n" % ", ".join(map(str, raws))
@@ -1113,7 +1109,7 @@ def _run(chk: Check, quick, se):
                 chk.nontrivial(("A", ev["_e"], ev["mode"], ev["_x0"] + k))
     # ---- Part C
     if not model_broken:
-        _block_machine(chk, entries, rows, "")
+        _block_machine(chk, entries, rows)
     lap("C block machine")
     if c_events:
         i = next((i for i, ev in enumerate(c_events) if ev["d0"] == "ok" and ev["raw0"]["n"] > 12), 0)
